@@ -119,6 +119,9 @@ def c15(ctx):
     ctx.extra["odds_game_book_nodes"] = h3
     ctx.evaluations += ev + ev2 + ev3
     ctx.nontrivial += hist + h2 + h3
+    # the real engine-versus-engine game loop, observed through what it prints
+    import cli
+    cli.watch_check(ctx, 40 if quick else 420)
     if hist < 50:
         raise ToolError("vacuity guard: only %d opening-book nodes were visited" % hist)
     ctx.rule = ("B2: every node of the COMPILED opening-book trie (enumerated through Book::get_next_moves, so the build script's output for the current opening_lines.txt) is reached by playing its prefix "
